@@ -3,7 +3,7 @@ from vf.gen.schema import walk_subschemas
 
 WRONG = [None, True, False, 0, 1, -1, 1.5, "", "a", "x y", [], [1], ["a"], ["a", "a"], [{}], [[]], {}, {"a": 1},
          {"a": {}}, {"a": []}, {"a": "b"}, [{"type": "nope"}], {"type": 5}, 10 ** 20, -0.5, 0.0, ["string", "string"],
-         ["string", 5], "nope", [None], {"$ref": 5}, {"": None}]
+         ["string", 5], "nope", [None], {"$ref": 5}, {"": None}, 10 ** 400, -(10 ** 400), 2 ** 1024, 1e308, 5e-324, 2.0, -1.0]
 
 
 def get_at(schema, path):
